@@ -147,6 +147,34 @@ def d_forall(E, fv, st, node, prog):
     return SBool(z3.ForAll(consts, body))
 
 
+def d_forall_arr(ndim):
+    def f(E, fv, st, node, prog):
+        """forall over integer arrays of rank ndim (bound variable is an array value)"""
+        lam = node.args[0]
+        names = [a.arg for a in lam.args.args]
+        consts = [fv.fresh(n, arr_sort(I, ndim)) for n in names]
+        s = st.fork()
+        s.assumes = st.assumes
+        for n, c in zip(names, consts):
+            s.env[n] = SArrVal("i8", [z3.IntVal(0)] * ndim, {"v": c})
+        body = fv.to_bool(fv.ev(lam.body, s, False))
+        pats = []
+        for kwd in node.keywords:
+            if kwd.arg == "pattern":
+                pe = kwd.value
+                pl = pe.elts if isinstance(pe, ast.Tuple) else [pe]
+                terms = []
+                for p in pl:
+                    v = fv.ev(p, s, False)
+                    terms.append(v.e if isinstance(v, (SInt, SBool)) else v.v)
+                pats.append(z3.MultiPattern(*terms) if len(terms) > 1 else terms[0])
+        if pats:
+            return SBool(z3.ForAll(consts, body, patterns=pats))
+        return SBool(z3.ForAll(consts, body))
+
+    return f
+
+
 def d_exists(E, fv, st, node, prog):
     lam = node.args[0]
     wit = None
@@ -189,13 +217,16 @@ def d_old(E, fv, st, node, prog):
     for k in getattr(st, "bound_names", ()):
         o.env[k] = st.env[k]
     v = fv.ev(node.args[0], o, False)
+    return _freeze(fv, o, v)
+
+
+def _freeze(fv, o, v):
+    """replace heap references by array values of state o"""
     if isinstance(v, SArr):
-        return o_arr_value(fv, o, v)
+        return fv.arr_value(o, v)
+    if isinstance(v, STuple):
+        return STuple([_freeze(fv, o, x) for x in v.items])
     return v
-
-
-def o_arr_value(fv, o, v):
-    return fv.arr_value(o, v)
 
 
 def d_at(E, fv, st, node, prog):
@@ -209,9 +240,7 @@ def d_at(E, fv, st, node, prog):
         if k not in o.env:
             o.env[k] = v
     v = fv.ev(node.args[1], o, False)
-    if isinstance(v, SArr):
-        return fv.arr_value(o, v)
-    return v
+    return _freeze(fv, o, v)
 
 
 def d_ite(E, fv, st, node, prog):
@@ -277,6 +306,46 @@ def d_val(E, fv, st, node, prog):
     if isinstance(v, SArr):
         return fv.arr_value(st, v)
     return v
+
+
+def d_same(E, fv, st, node, prog):
+    """NaN-aware equality of floats (both NaN, or both not NaN and equal as extended reals)"""
+    a, b = _args(fv, st, node, False, 2)
+    fa, fb = fv.to_float(a), fv.to_float(b)
+    eq = z3.Or(z3.And(fa.ninf, fb.ninf), z3.And(z3.Not(fa.ninf), z3.Not(fb.ninf), fa.v == fb.v))
+    return SBool(z3.Or(z3.And(fa.nan, fb.nan), z3.And(z3.Not(fa.nan), z3.Not(fb.nan), eq)))
+
+
+RAVELF = z3.Function("RAVEL", z3.ArraySort(I, z3.ArraySort(I, I)), I, I, z3.ArraySort(I, I))
+UNRAVELF = z3.Function("UNRAVEL", z3.ArraySort(I, I), I, I, z3.ArraySort(I, z3.ArraySort(I, I)))
+
+
+def _canon2_term(g, P, N):
+    h = z3.Int("arr!ch")
+    j = z3.Int("arr!cj")
+    return z3.Lambda([h], z3.Lambda([j], z3.If(z3.And(h >= 0, h < P, j >= 0, j < N), z3.Select(z3.Select(g, h), j), z3.IntVal(0))))
+
+
+def d_canon2(E, fv, st, node, prog):
+    """canon2(G, P, N): G restricted to [0,P) x [0,N), 0 elsewhere (canonical representative)"""
+    g, P, N = _args(fv, st, node, False, 3)
+    if isinstance(g, SArr):
+        g = fv.arr_value(st, g)
+    return SArrVal("i8", [z3.IntVal(0)] * 2, {"v": _canon2_term(g.comps["v"], fv.as_int(P).e, fv.as_int(N).e)})
+
+
+def d_unravel(E, fv, st, node, prog):
+    k, P, N = _args(fv, st, node, False, 3)
+    if isinstance(k, SArr):
+        k = fv.arr_value(st, k)
+    return SArrVal("i8", [z3.IntVal(0)] * 2, {"v": UNRAVELF(k.comps["v"], fv.as_int(P).e, fv.as_int(N).e)})
+
+
+def d_ravel_of(E, fv, st, node, prog):
+    g, P, N = _args(fv, st, node, False, 3)
+    if isinstance(g, SArr):
+        g = fv.arr_value(st, g)
+    return SArrVal("i8", [z3.IntVal(0)], {"v": RAVELF(g.comps["v"], fv.as_int(P).e, fv.as_int(N).e)})
 
 
 def d_ones_if_none(E, fv, st, node, prog):
@@ -354,6 +423,8 @@ BUILTINS = {
     "float": b_float,
     "implies": d_implies,
     "forall": d_forall,
+    "forall_arr1": d_forall_arr(1),
+    "forall_arr2": d_forall_arr(2),
     "exists": d_exists,
     "old": d_old,
     "at": d_at,
@@ -368,6 +439,10 @@ BUILTINS = {
     "val": d_val,
     "log": d_xlog,
     "ones_if_none": d_ones_if_none,
+    "same": d_same,
+    "canon2": d_canon2,
+    "unravel": d_unravel,
+    "ravel_of": d_ravel_of,
     "arr2": d_arr2,
     "arr1": d_arr2,
     "exp": _uf1("exp", EXP),
@@ -624,4 +699,20 @@ def method(E, fv, st, recv, name, node, prog):
             return fv.new_loc(st, o.dtype, fv.arr_shape(st, recv), comps, name="copy")
         if name == "sum":
             return _sum_of(E, fv, st, recv, node, prog)
+        if name == "ravel":
+            shp = fv.arr_shape(st, recv)
+            if len(shp) != 2:
+                _err("ravel of non-2-D array")
+            USED.add("ndarray.ravel() of a C-contiguous 2-D array: length P*N, and reshaping it back gives the array (UNRAVEL(RAVEL(a,P,N),P,N) == a on [0,P)x[0,N)); every element of the result is an element of the array")
+            o = st.heap[recv.loc]
+            g = nested_select(o.comps["v"], recv.prefix)
+            r = fv.fresh("ravel", z3.ArraySort(I, I))  # named so that it can appear in patterns
+            st.assume(r == RAVELF(g, shp[0], shp[1]))
+            st.assume(UNRAVELF(r, shp[0], shp[1]) == _canon2_term(g, shp[0], shp[1]))
+            fv.counter += 1
+            rh = z3.Function("ravel_row!%d" % fv.counter, I, I)
+            rj = z3.Function("ravel_col!%d" % fv.counter, I, I)
+            s_ = fv.fresh_int("s")
+            st.assume(z3.ForAll([s_], z3.Implies(z3.And(s_ >= 0, s_ < shp[0] * shp[1]), z3.And(rh(s_) >= 0, rh(s_) < shp[0], rj(s_) >= 0, rj(s_) < shp[1], z3.Select(r, s_) == z3.Select(z3.Select(g, rh(s_)), rj(s_)))), patterns=[z3.Select(r, s_)]))
+            return fv.new_loc(st, o.dtype, [shp[0] * shp[1]], {"v": r}, name="ravel")
     _err("method .%s on %r" % (name, recv))
